@@ -83,6 +83,8 @@ def io_views(tmp):
     etl.topickle(a, p('t.p'))
     etl.tojson(a, p('t.json'))
     etl.tojson(a, p('t.jsonl'), lines=True)
+    with open(p('t2.json'), 'w') as f:
+        json.dump([{'k': 1}, {'k': 2, 's': 'b'}, {'k': 3, 's': 'c', 'z': 0}], f)
     etl.totext(a, p('t.txt'), template='{k} {s}\n')
     etl.tocsv(a, p('t.csv.gz'))
     _mem_sources()
@@ -101,6 +103,9 @@ def io_views(tmp):
         ('fromtsv', lambda: etl.fromtsv(p('t.tsv'))),
         ('frompickle', lambda: etl.frompickle(p('t.p'))),
         ('fromjson', lambda: etl.fromjson(p('t.json'))),
+        ('fromjson(sample=1, late keys)', lambda: etl.fromjson(p('t2.json'), sample=1)),
+        ('fromjson(sample=2, late keys)', lambda: etl.fromjson(p('t2.json'), sample=2)),
+        ('fromjson(header=)', lambda: etl.fromjson(p('t2.json'), header=['z', 'k'])),
         ('fromjson(lines)', lambda: etl.fromjson(p('t.jsonl'), lines=True)),
         ('fromtext', lambda: etl.fromtext(p('t.txt'))),
         ('fromdb', lambda: etl.fromdb(lambda: sqlite3.connect(p('t.db')).cursor(), 'select * from t')),
@@ -221,39 +226,65 @@ def concurrency(sched):
     return 'interleave' if mx >= 2 else 'sequential'
 
 
-def check_views(chk, views, schedules, per_view, rng, label):
-    for name, mk in views:
+def _views_of(group, tmp):
+    if group in ('stateful', 'edge-cover'):
+        return dict(stateful_views(tmp))
+    if group == 'io':
+        return dict(io_views(tmp))
+    return dict(catalogue_views())
+
+
+def _view_job(j):
+    """All schedules of one view, in a worker with its own temp directory; returns ('machinery', msg) or a list of
+    (schedule, message) for the failing schedules."""
+    group, name, scheds = j
+    with common.private_tmp() as tmp:
+        mk = _views_of(group, tmp)[name]
         try:
             solo = [norm(r) for r in mk()]
             solo2 = [norm(r) for r in mk()]
         except Exception as e:
-            raise tlc.MachineryError('cannot build view %s: %r' % (name, e))
+            return ('machinery', 'cannot build view %s: %r' % (name, e))
         if solo != solo2:
             # two fresh views disagree: if already two passes of ONE view disagree this is the property itself
             v = mk()
             p1 = [norm(r) for r in v]
             p2 = [norm(r) for r in v]
             if p1 != p2:
-                chk.violation({'op': name, 'kind': 'sequential'}, '%s: two consecutive full passes of the same view differ: %r / %r' % (name, p1[:6], p2[:6]),
-                              {'kind': 'schedule', 'view': name, 'group': label, 'schedule': [[1, 'iter'], [1, 'next'], [1, 'drop'], [2, 'iter'], [2, 'next']]})
-                continue
-            raise tlc.MachineryError('view factory %s is not deterministic' % name)
-        scheds = schedules if per_view is None or per_view >= len(schedules) else rng.sample(schedules, per_view)
-        nbad = 0
+                return ('unrepeatable', '%s: two consecutive full passes of the same view differ: %r / %r' % (name, p1[:6], p2[:6]))
+            return ('machinery', 'view factory %s is not deterministic' % name)
+        bad = []
         for sched in scheds:
             msg = replay_schedule(mk, sched, solo)
+            if msg:
+                bad.append((sched, msg))
+        gc.collect()
+        return ('ok', bad)
+
+
+def check_views(chk, views, schedules, per_view, rng, label):
+    jobs = []
+    for name, _mk in views:
+        scheds = schedules if per_view is None or per_view >= len(schedules) else rng.sample(schedules, per_view)
+        jobs.append((label, name, scheds))
+    for (_g, name, scheds), (status, res) in zip(jobs, common.pmap(_view_job, jobs, chunksize=1, min_items=4)):
+        if status == 'machinery':
+            raise tlc.MachineryError(res)
+        if status == 'unrepeatable':
+            chk.violation({'op': name, 'kind': 'sequential'}, res,
+                          {'kind': 'schedule', 'view': name, 'group': label, 'schedule': [[1, 'iter'], [1, 'next'], [1, 'drop'], [2, 'iter'], [2, 'next']]})
+            continue
+        for sched in scheds:
             chk.count((label, name, json.dumps(sched)))
             chk.replayed += 1
-            if msg:
-                nbad += 1
-                if nbad <= 3:
-                    chk.violation({'op': name, 'kind': concurrency(sched)},
-                                  '%s schedule=%r: %s' % (name, sched, msg),
-                                  {'kind': 'schedule', 'view': name, 'group': label, 'schedule': sched})
-                else:
-                    chk.violation({'op': name, 'kind': concurrency(sched)}, '%s: further failing schedule' % name,
-                                  {'kind': 'schedule', 'view': name, 'group': label, 'schedule': sched})
-        gc.collect()
+        for nbad, (sched, msg) in enumerate(res, 1):
+            if nbad <= 3:
+                chk.violation({'op': name, 'kind': concurrency(sched)},
+                              '%s schedule=%r: %s' % (name, sched, msg),
+                              {'kind': 'schedule', 'view': name, 'group': label, 'schedule': sched})
+            else:
+                chk.violation({'op': name, 'kind': concurrency(sched)}, '%s: further failing schedule' % name,
+                              {'kind': 'schedule', 'view': name, 'group': label, 'schedule': sched})
 
 
 def scale_views(tmp, n):
@@ -275,17 +306,20 @@ def scale_views(tmp, n):
     return V
 
 
-def check_scale(chk, tmp, full):
-    """Sequential histories on LARGE views: full, full; partial (k rows), full; two iterators one of which runs
-    ahead by a fixed lag - every pass compared with the pass of a fresh view."""
-    n = 600 if full else 300
-    for name, mk in scale_views(tmp, n):
+def _scale_job(j):
+    name, n = j
+    with common.private_tmp() as tmp:
+        mk = dict(scale_views(tmp, n))[name]
+        return _scale_one(name, mk, n)
+
+
+def _scale_one(name, mk, n):
+    """Returns ('machinery', msg) / ('ok', violation message or None)."""
+    if True:
         try:
             solo = [norm(r) for r in mk()]
         except Exception as e:
-            raise tlc.MachineryError('cannot build large view %s: %r' % (name, e))
-        chk.count(('scale', name))
-        chk.replayed += 1
+            return ('machinery', 'cannot build large view %s: %r' % (name, e))
         msg = None
         try:
             v = mk()
@@ -316,16 +350,44 @@ def check_scale(chk, tmp, full):
                 rest2 = [norm(r) for r in i2]
                 got1 = lead + [x for x, _ in both]
                 got2 = [y for _, y in both] + rest2
+                # second pattern: the trailing iterator has already delivered 50 items when the leader runs 200 ahead
+                if msg is None and 'dummytable' not in name:
+                    v = mk()
+                    j1, j2 = iter(v), iter(v)
+                    t_first = [norm(r) for r in itertools.islice(j2, 50)]
+                    l_first = [norm(r) for r in itertools.islice(j1, 250)]
+                    t_rest, l_rest = [], []
+                    for x, y in zip(j1, j2):
+                        l_rest.append(norm(x))
+                        t_rest.append(norm(y))
+                    t_rest += [norm(r) for r in j2]
+                    if (l_first + l_rest) != solo[:len(l_first) + len(l_rest)] or (t_first + t_rest) != solo:
+                        msg = ('trailing iterator 50 items in, leader 250 items in, then in turn: leader delivered %d items, trailing one %d, solo %d; '
+                               'first difference of the trailing one at item %s' % (len(l_first) + len(l_rest), len(t_first) + len(t_rest), len(solo),
+                                                                                    next((i for i, (g, w) in enumerate(zip(t_first + t_rest, solo)) if g != w), 'n/a')))
                 if name.startswith('dummytable') or 'dummytable' in name:
                     pass
-                elif got1 != solo[:len(got1)] or got2 != solo:
+                elif msg is None and (got1 != solo[:len(got1)] or got2 != solo):
                     msg = 'two iterators 259 items apart: the leading one delivered %d items, the trailing one %d, solo %d%s' % (
                         len(got1), len(got2), len(solo), '' if got2 == solo else '; trailing iterator differs from the solo pass')
         except Exception as e:
             msg = 'raised %r' % (e,)
+        gc.collect()
+        return ('ok', msg)
+
+
+def check_scale(chk, tmp, full):
+    """Sequential histories on LARGE views: full, full; partial (k rows), full; two iterators one of which runs
+    ahead by a fixed lag - every pass compared with the pass of a fresh view."""
+    n = 600 if full else 300
+    names = [nm for nm, _mk in scale_views(tmp, n)]
+    for name, (status, msg) in zip(names, common.pmap(_scale_job, [(nm, n) for nm in names], chunksize=2)):
+        if status == 'machinery':
+            raise tlc.MachineryError(msg)
+        chk.count(('scale', name))
+        chk.replayed += 1
         if msg:
             chk.violation({'op': name, 'kind': 'scale'}, '%s over %d-row sources: %s' % (name, n, msg), {'kind': 'scale', 'view': name, 'n': n})
-        gc.collect()
 
 
 # ---- TLC ----------------------------------------------------------------------------------------------
